@@ -5,5 +5,11 @@ TEXTS = {
         level_text="Generated-input search: tens of thousands of generated configurations/strings per run are compared with an independent reference (first-existing-candidate model, hand-written parser, mini template renderer) on both a YAML file backend and a simulated Consul KV; the 16 existence patterns are enumerated completely for fixed name tuples. Exploration is the right level: the property quantifies over unbounded input strings and store contents, which sampling plus exhaustive small-scope enumeration covers well but cannot exhaust.",
         level_note="Trusts: the simulated Consul KV behaves like Consul for GET/PUT/keys/recurse; pongo2 rendering of plain {{var}} / {% include %} as modelled; inputs with empty inner entry segments are outside the oracle.",
     ),
+    "C12": dict(
+        engine="inprocess-rapid",
+        technique="property-based testing (rapid): generated command sets and per-target behaviours/arrival orders against the real CommandQueue+Servent with an injected send function; token-based attribution oracle (each reply carries a unique token)",
+        level_text="Generated-schedule search over the exported controlcommands API: ~2000 (quick) / 40000 (thorough) generated command sets with abnormal peers (send failure, silence, duplicates, late, unknown/foreign ids and senders), in production shape (one queue) and stress shape (several queues on one servent). The oracle is exact on attribution (own token or error per target, exactly one completion). Exploration level: arrival orders are drawn, goroutine scheduling inside the queue is not owned.",
+        level_note="Trusts real-time sleeps for arrival order (margins >= 100 ms, every verdict confirmed by a second execution); replies are delivered in their own goroutine exactly as core/task/scheduler.go does.",
+    ),
 }
 NA_REASONS = {}
